@@ -19,7 +19,7 @@ DEFAULT = dict(
     strings=1.0, lists=0.0, random=0.0, shuffles=0.0, externals=0.0, faults=0.0, flows=0,
     fallback=0.6, labels=0.6, readcounts=1.0, stitches=0.5, impure_functions=0.3,
     assign_after_newline=1.0, unicode=0.0, floats=0.0, hostvar=0, turns=1.0, msgs=0.0, ext_in_strings=0.0,
-    ext_counters=0, retype=0.4,
+    ext_counters=0, retype=0.4, ext_markers=0,
 )
 
 
@@ -250,7 +250,20 @@ class Gen:
                 out.append(pad + "~ %s(%s)" % (f["name"], ", ".join(self.int_expr(0, temps) for _ in f["params"])))
             elif c < 0.78 and self.externals and not in_function:
                 e = r.choice(self.externals)
-                out.append(pad + "~ %s(%s)" % (e["name"], ", ".join(self.int_expr(0, temps) for _ in range(e["arity"]))))
+                call = "%s(%s)" % (e["name"], ", ".join(str(r.randint(0, 5)) for _ in range(e["arity"])))
+                if self.w["ext_in_strings"] and ind == 0 and r.random() < 0.5 * self.w["ext_in_strings"]:
+                    t = "sx%d" % (len(temps) + 1)
+                    out.append(pad + '~ temp %s = "%s {%s}"' % (t, self.word(), call))
+                    out.append(pad + "%s {%s}" % (self.word(), t))
+                    temps = tuple(temps) + (t,)
+                elif self.w["ext_markers"]:
+                    # the call site directly follows a marker line; the marker id is the first argument
+                    self.marker_n = getattr(self, "marker_n", 700000) + 1
+                    k = self.marker_n
+                    out.append(pad + "m%dq %s" % (k, self.word()))
+                    out.append(pad + "~ %s(%s)" % (e["name"], ", ".join([str(k)] + [str(r.randint(0, 5)) for _ in range(e["arity"] - 1)])))
+                else:
+                    out.append(pad + "~ " + call)
             elif c < 0.82 and self.p("seqs") and depth > 0 and not in_function:
                 kind = r.choice(["stopping", "cycle", "once"])
                 if self.w["shuffles"] and r.random() < 0.6 * self.w["shuffles"]:
@@ -297,7 +310,10 @@ class Gen:
             if self.p("conds") and r.random() < 0.35:
                 line += "{%s} " % self.bool_expr(1, temps)
             form = r.random()
-            if form < 0.5:
+            if self.externals and self.w["ext_in_strings"] and r.random() < 0.3 * self.w["ext_in_strings"]:
+                e = r.choice(self.externals)
+                line += "[%s {%s(%s)}]" % (self.word(), e["name"], ", ".join(str(r.randint(0, 5)) for _ in range(e["arity"])))
+            elif form < 0.5:
                 line += "[%s]" % self.words(r.randint(1, 2))
             elif form < 0.75:
                 line += self.words(r.randint(1, 2))
@@ -383,6 +399,8 @@ class Gen:
                 self.externals.append(dict(name="ext%d" % i, arity=ar,
                                            spec=dict(impl="lin", coef=[10, 1][:ar], add=100 if ar == 1 else 0)))
                 L.append("EXTERNAL ext%d(%s)" % (i, ", ".join("abc"[k] for k in range(ar))))
+                if w["ext_counters"]:
+                    L.append("VAR cnt_ext%d = 0" % i)
         nk = w["knots"]
         names = ["k%d" % i for i in range(nk)]
         nfun = r.randint(1, 2) if w["functions"] else 0
@@ -511,6 +529,8 @@ class Gen:
             # Ink fallback with the same meaning as the host implementation
             ps = ["a", "b", "c"][: e["arity"]]
             L.append("== function %s(%s) ==" % (e["name"], ", ".join(ps)))
+            if w["ext_counters"]:
+                L.append("~ cnt_%s = cnt_%s + 1" % (e["name"], e["name"]))
             if e["arity"] == 1:
                 L.append("~ return a * 10 + 100")
             else:
